@@ -23,7 +23,9 @@ PROPS['C02'] = dict(
 
 PROPS['C03'] = dict(
     engine='A', technique='symbolic-scalar execution of the real templates (T = z3 real terms) + QF_NRA obligations, exact-rational replay',
-    harnesses=[dict(name='C03_arith_high', src='C03_arith.cpp', defs=dict(quick=['-DFIXED_GRID', '-DMAXN=3'], thorough=['-DFIXED_GRID', '-DMAXN=4']),
+    harnesses=[dict(name='C03_intscalar', src='C03_intscalar.cpp', defs=dict(quick=['-DSYMT_IMPLICIT_INT', '-DMAXN=3'], thorough=['-DSYMT_IMPLICIT_INT', '-DMAXN=4']),
+                    functions=['Spline::operator/(T), operator*(T), operator*=, operator/= called with integer-typed arguments (int, long, unsigned, unsigned short, size_t)']),
+               dict(name='C03_arith_high', src='C03_arith.cpp', defs=dict(quick=['-DFIXED_GRID', '-DMAXN=3'], thorough=['-DFIXED_GRID', '-DMAXN=4']),
                     functions=['Spline arithmetic for order pairs in {4,6,9,10}^2, scalar operations on orders 8 and 10, linearCombination on order 7 (fixed rational grid)']),
                dict(name='C03_arith', src='C03_arith.cpp',
                     defs=dict(quick=['-DMAXN=5', '-DMAXO=2', '-DLCN=4'], thorough=['-DMAXN=6', '-DMAXO=3', '-DLCN=5']),
@@ -31,7 +33,7 @@ PROPS['C03'] = dict(
                                'Spline::operator+=', 'Spline::operator-=', 'Spline::operator*=', 'Spline::operator/=', 'Spline::operator=(lower order)', 'operator*(T,Spline)',
                                'linearCombination (iterator and collection overloads)', 'internal::add', 'internal::changearraysize', 'internal::make_array',
                                'Support::calcUnion', 'Support::calcIntersection', 'Support::intervalIndexFromAbsolute', 'Support::absoluteFromRelative', 'Spline::Spline (validation)'])],
-    bounds=dict(quick='grids of 2..5 symbolic points; every ordered pair of windows (empty, point-like, nested, overlapping, touching, gap); order pairs {0,1,2}^2; in-place forms from an arbitrary prior state and sequences of up to 4 updates; linearCombination of 2 and 3 splines (all window triples on grids <=4, third spline at every position), symbolic scalars; plus order pairs {4,6,9,10}^2 on FIXED irregular rational grids of 2..3 points (coefficients, scalars, x symbolic)',
+    bounds=dict(quick='grids of 2..5 symbolic points; every ordered pair of windows (empty, point-like, nested, overlapping, touching, gap); order pairs {0,1,2}^2; in-place forms from an arbitrary prior state and sequences of up to 4 updates; the same object on both sides (t -= t, t += t, a*a, ...); integer-typed scalar arguments with an implicitly converting scalar type; linearCombination of 2 and 3 splines (all window triples on grids <=4, third spline at every position), symbolic scalars; plus order pairs {4,6,9,10}^2 on FIXED irregular rational grids of 2..3 points (coefficients, scalars, x symbolic)',
                 thorough='grids of 2..6 points, order pairs {0..3}^2, linearCombination on grids <=5'),
     outside='orders/grids above the bound; collections of more than 3 splines; floating-point rounding (C16)',
     assumptions=['grid points strictly increasing reals', 'scalar divisor non-zero', 'exact real arithmetic (sym::Real), not IEEE'],
@@ -63,9 +65,9 @@ PROPS['C05'] = dict(
         functions=['OperatorProduct::transform', 'OperatorSum::transform/add', 'ScalarMultiplication::transform', 'operator*(O1,O2)', 'operator+(O1,O2)', 'operator-(O1,O2)',
                    'operator*(S,O)', 'operator*(O,S)', 'operator/(O,S)', 'operator+(O,S)', 'operator+(S,O)', 'operator-(O,S)', 'operator-(S,O)', 'operator-(O)',
                    'SplineOperator::transform', 'Derivative::transform', 'Position::transform', 'IdentityOperator::transform', 'transformSpline']))],
-    bounds=dict(quick='expression trees: 10 named (commutator, hydrogen-like, generator, ...) + all 198 trees with one composite node over the leaves {I, X<1>, X<2>, Dx<1>, Dx<2>, SplineOperator(v)} with scalars of type T (symbolic) and int (literals, incl. int divisors) + all 315 nestings of two builder functions (unary over unary, binary over a unary child on either side) + 160 seed-selected further trees with two composite nodes; operand orders 0..2; factor order 1; every operand window x every factor window on grids of 2..4 symbolic points',
+    bounds=dict(quick='expression trees: 10 named (commutator, hydrogen-like, generator, ...) + all 198 trees with one composite node over the leaves {I, X<1>, X<2>, Dx<1>, Dx<2>, SplineOperator(v)} with scalars of type T (symbolic) and int (literals, incl. int divisors) + 84 one-level trees with scalars of type unsigned, size_t, long, short + all 315 nestings of two builder functions (unary over unary, binary over a unary child on either side) + 160 seed-selected further trees with two composite nodes; operand orders 0..2; factor order 1; every operand window x every factor window on grids of 2..4 symbolic points',
                 thorough='all 2808 two-level trees of the generator, operand orders 0..3, factor orders 1 and 2, grids of 2..5 points'),
-    outside='deeper trees than two composite nodes above the leaves; X<n>/Dx<n> with n>2 inside expressions (covered alone by C04); lvalue operator operands (do not compile); scalar types other than T and int',
+    outside='deeper trees than two composite nodes above the leaves; X<n>/Dx<n> with n>2 inside expressions (covered alone by C04); lvalue operator operands (do not compile); scalar types other than T, int, unsigned, size_t, long, short',
     assumptions=['grid points strictly increasing reals', 'T-typed divisor non-zero', 'exact real arithmetic (sym::Real), not IEEE'],
     trusted=A_TRUST + ['symt/gen/gen_exprs.py (tree enumeration and reference interpreter)'],
     level_text='Bounded symbolic model checking over programs: each enumerated expression tree is a distinct template instantiation of the real operator classes; it is applied to a spline with symbolic coefficients on a symbolic grid and compared on every interval at a symbolic x with a 40-line reference interpreter working on origin-basis polynomials.',
@@ -82,7 +84,7 @@ PROPS['C06'] = dict(
                dict(mode='c06hi', ntu=4, template=dict(
         defs=dict(quick=['-DFIXED_GRID', '-DMAXN=3', '-DFO=1'], thorough=['-DFIXED_GRID', '-DMAXN=4', '-DFO=1']),
         functions=['BilinearForm::evaluateInterval for order pairs in {5,6,7,8,10}^2 (fixed rational grid)']))],
-    bounds=dict(quick='14 operator pairs over {I, Dx<1>, Dx<2>, X<1>, X<2>, SplineOperator(v), X<2>Dx<1>+c X<1>-3, -Dx<2>/2, v*Dx<1>, c-X<1>} (position-dependent operators in both slots); order pairs {0..3}^2 (all four size parities of the kernel); every ordered window pair on grids of 2..4 symbolic points; factor windows {whole, empty, [0,2), [1,n)}; plus order pairs {5,6,7,8,10}^2 for 4 operator pairs on FIXED irregular rational grids of 2..3 points (coefficients symbolic) - the kernel sizes the examples use',
+    bounds=dict(quick='14 operator pairs over {I, Dx<1>, Dx<2>, X<1>, X<2>, SplineOperator(v), X<2>Dx<1>+c X<1>-3, -Dx<2>/2, v*Dx<1>, c-X<1>} (position-dependent operators in both slots); order pairs {0..3}^2 (all four size parities of the kernel); every ordered window pair on grids of 2..4 symbolic points; factor windows {whole, empty, [0,2), [1,n)}; operands with a history (a queried zero object re-assigned by lower-order assignment / += / copy and *=); plus order pairs {5,6,7,8,10}^2 for 4 operator pairs on FIXED irregular rational grids of 2..3 points (coefficients symbolic) - the kernel sizes the examples use',
                 thorough='68 operator pairs, order pairs {0..4}^2, grids of 2..5 points, every factor window; high-order part: 10 operator pairs, grids of 2..4 points'),
     outside='operator pairs and orders beyond the bound; floating-point rounding (C16)',
     assumptions=['grid points strictly increasing reals', 'T-typed divisor non-zero', 'exact real arithmetic (sym::Real), not IEEE'],
